@@ -1,8 +1,9 @@
 (* Constructors.v -- executable model of the smart constructors of ReManager (no proofs here):
    simplify_set_operation, make_inter, make_union (+ subsumption pruning), inter/union/diff(_list),
    concat (rules in source order), concat_list, mk_loop (repair D1), char/range/char_set/smt_range/
-   star/plus/opt/exp/smt_loop/str.  None = the Rust code panics (u32 overflow of loop bounds,
-   assert in char/range). *)
+   star/plus/opt/exp/smt_loop/str.  None = the Rust code panics (assert in char/range; since the
+   repair of D11 concat and mk_loop never panic: the loop-merging rules are guarded by checked
+   arithmetic and fall through when the merged bounds do not fit in u32). *)
 Require Import Base CharSet Partition LoopRange Regex Inclusion.
 Open Scope N_scope.
 
@@ -82,19 +83,20 @@ Fixpoint concat (e1 : re) (m : mgr) (e2 : re) {struct e1} : option (mgr * re) :=
     | NEps, _ => Some (m, e2)
     | _, NEps => Some (m, e1)
     | _, _ =>
-      (* rule 5: R . R^[i,j] *)
-      match (match loop_of e2 with Some (y, rng) => if re_eqb e1 y then Some rng else None | None => None end) with
-      | Some rng => do r <- lr_add_point rng 1; (make m (NLoop e1 r))
+      (* rule 5: R . R^[i,j]  (D11 repaired: only if the new bounds fit in u32, else fall through) *)
+      match (match loop_of e2 with Some (y, rng) => if re_eqb e1 y then lr_add_point rng 1 else None | None => None end) with
+      | Some r => make m (NLoop e1 r)
       | None =>
-        (* rule 6: R^[i,j] . R *)
-        match (match loop_of e1 with Some (x, rng) => if re_eqb e2 x then Some rng else None | None => None end) with
-        | Some rng => do r <- lr_add_point rng 1; (make m (NLoop e2 r))
+        (* rule 6: R^[i,j] . R  (same guard) *)
+        match (match loop_of e1 with Some (x, rng) => if re_eqb e2 x then lr_add_point rng 1 else None | None => None end) with
+        | Some r => make m (NLoop e2 r)
         | None =>
-          (* rule 7: R^[a,b] . R^[c,d] *)
+          (* rule 7: R^[a,b] . R^[c,d]  (only if the sums fit in u32) *)
           match (match loop_of e1, loop_of e2 with
-                 | Some (x, xr), Some (y, yr) => if re_eqb x y then Some (x, xr, yr) else None
+                 | Some (x, xr), Some (y, yr) =>
+                     if re_eqb x y then (match lr_add xr yr with Some r => Some (x, r) | None => None end) else None
                  | _, _ => None end) with
-          | Some (x, xr, yr) => do r <- lr_add xr yr; (make m (NLoop x r))
+          | Some (x, r) => make m (NLoop x r)
           | None =>
             if re_eqb e1 e2 then (make m (NLoop e1 (lr_point 2)))
             else match k1 with
@@ -117,9 +119,11 @@ Definition mk_loop (m : mgr) (e : re) (range : lr) : option (mgr * re) :=
        | NEmpty => Some (m, if lr_start range =? 0 then m_eps m else m_empty m)   (* D1 repaired *)
        | NEps => Some (m, m_eps m)
        | NLoop x xr =>
-           do ex <- lr_rmie xr range;
-           if ex then (do r <- lr_mul xr range; (make m (NLoop x r)))
-           else (make m (NLoop e range))
+           (* D11 repaired: flatten only if neither the exactness test nor the product overflows *)
+           match lr_rmie xr range, lr_mul xr range with
+           | Some true, Some r => make m (NLoop x r)
+           | _, _ => make m (NLoop e range)
+           end
        | _ => (make m (NLoop e range))
        end.
 Definition char_set (m : mgr) (s : cs) := make m (NRange s).
